@@ -576,3 +576,56 @@ def check_frame(mod, qual, modifies=(), fresh_result=False, result_may_share=())
         else:
             out.append(('fresh_result', 'discharged', 'every array/list reachable from the result is allocated in the call'))
     return out, s
+
+
+# ---- definite initialisation of instance state ("the result does not depend on a previous call") ------------------
+
+def _self_reads(cls_node, fnode, seen=None):
+    """attributes of self that a method may read, transitively through calls of other methods of the class"""
+    seen = seen or set()
+    if fnode.name in seen:
+        return set()
+    seen.add(fnode.name)
+    methods = {m.name: m for m in cls_node.body if isinstance(m, ast.FunctionDef)}
+    reads = set()
+    for n in ast.walk(fnode):
+        if isinstance(n, ast.Attribute) and isinstance(n.value, ast.Name) and n.value.id == 'self':
+            if n.attr in methods:
+                reads |= _self_reads(cls_node, methods[n.attr], seen)
+            elif isinstance(n.ctx, ast.Load):
+                reads.add(n.attr)
+    return reads
+
+
+def check_reinit(mod, clsname, method, allowed=('graph',)):
+    """every instance attribute that `method` (transitively) reads, other than `allowed`, is assigned at the top level of
+    `method` before its first possible read"""
+    m = loader.module(mod)
+    cls = m.classes.get(clsname)
+    if cls is None:
+        return [('state_independent_of_previous_calls', 'undecided', f'class {clsname} not found')]
+    methods = {x.name: x for x in cls.body if isinstance(x, ast.FunctionDef)}
+    f = methods.get(method)
+    if f is None:
+        return [('state_independent_of_previous_calls', 'undecided', f'method {method} not found')]
+    assigned = set(allowed)
+    for s in f.body:
+        # plain top-level assignment self.x = <expr that does not read unassigned state>
+        if isinstance(s, ast.Assign) and all(isinstance(t, ast.Attribute) and isinstance(t.value, ast.Name) and t.value.id == 'self' for t in s.targets):
+            need = {n.attr for n in ast.walk(s.value) if isinstance(n, ast.Attribute) and isinstance(n.value, ast.Name) and n.value.id == 'self' and isinstance(n.ctx, ast.Load)}
+            need = {a for a in need if a not in methods}
+            if need - assigned:
+                return [('state_independent_of_previous_calls', 'refuted',
+                         f'line {s.lineno}: initialisation reads self.{sorted(need - assigned)[0]} left over from a previous call')]
+            for t in s.targets:
+                assigned.add(t.attr)
+            continue
+        if isinstance(s, ast.Expr) and isinstance(s.value, ast.Constant):
+            continue
+        tmp = ast.FunctionDef(name='#stmt', args=f.args, body=[s], decorator_list=[])
+        need = _self_reads(cls, tmp)
+        if need - assigned:
+            a = sorted(need - assigned)[0]
+            return [('state_independent_of_previous_calls', 'refuted',
+                     f'line {s.lineno}: self.{a} may be read before {method} has (re)initialised it: the result depends on the state left by a previous call')]
+    return [('state_independent_of_previous_calls', 'discharged', f'{method} assigns {sorted(assigned - set(allowed))} before any use')]
